@@ -1,0 +1,16 @@
+//go:build verif
+// +build verif
+
+package mtproto
+
+// Verification hooks (build tag verif): read-only views and wrappers of package-private members.
+
+func (m *MTProto) VerifTryToProcessErr(e *ErrResponseCode) error { return m.tryToProcessErr(e) }
+
+func (m *MTProto) VerifAddr() string { return m.addr }
+
+func (m *MTProto) VerifEncrypted() bool { return m.encrypted }
+
+func (m *MTProto) VerifServiceMode() bool { return m.serviceModeActivated }
+
+func (m *MTProto) VerifPendingIDs() []int { return m.responseChannels.Keys() }
